@@ -1,18 +1,13 @@
 SPECIFICATION Spec
 CONSTANTS
   Peers <- P2
-  GarbagePeers <- None
   X <- X2
   Cls <- Cls2
   Req = "r"
   Named <- T3
-  T <- T3
   BadCopy <- None
-  Holds <- Holds3
-  Mute <- None
   MaxH = 2
-  MaxSend = 3
-  MaxPush = 1
+  Universes <- U4b
   BugDeliverTwice = FALSE
   BugRelaySenderOnly = FALSE
   BugTruncate = TRUE
@@ -20,5 +15,4 @@ CONSTANTS
   BugStartBeforeSync = FALSE
   SplitLookup = FALSE
 INVARIANTS TypeOK Safe AtRest
-CONSTRAINT Constr
 CHECK_DEADLOCK FALSE
